@@ -201,6 +201,27 @@ fn mg_resize_close_race() -> Outcome {
     }
 }
 
+// C06: close() racing with a resize() that runs between close's resize(0) and Semaphore::close()
+fn mg_close_resize_race() -> Outcome {
+    let (pool, t) = mpool(1);
+    let o = rt().block_on(async { pool.get().await.unwrap() });
+    let p2 = pool.clone();
+    verif::set_hook(Some(Box::new(move |name| {
+        if name == "mg.close.after_resize" {
+            p2.resize(3);
+        }
+    })));
+    pool.close();
+    verif::set_hook(None);
+    drop(o); // returned after close() has returned
+    let s = pool.verif_snapshot();
+    if s.closed && (s.max_size != 0 || s.idle != 0) {
+        Err(format!("closed pool reports max_size {} and keeps {} idle object(s) ({} live) after close() raced with resize(3)", s.max_size, s.idle, live(&t)))
+    } else {
+        Ok(())
+    }
+}
+
 // C05 / D7: unmanaged status().waiting does not count blocked getters
 fn um_status_waiting() -> Outcome {
     let pool: unmanaged::Pool<u32> = unmanaged::Pool::new(1);
@@ -228,6 +249,7 @@ fn scenarios() -> Vec<(&'static str, fn() -> Outcome)> {
         ("mg_shrink_keeps_free_permits", mg_shrink_keeps_free_permits),
         ("mg_shrink_grow_overadmits", mg_shrink_grow_overadmits),
         ("mg_resize_close_race", mg_resize_close_race),
+        ("mg_close_resize_race", mg_close_resize_race),
         ("um_status_waiting", um_status_waiting),
     ]
 }
